@@ -13,12 +13,15 @@ for k, v in rep.items():
     print(k, v[:200])
 ok, log = vlib.coq_make(None, timeout=3000)
 if not ok:
+    # a proof that no longer checks is for the checks to report (each rebuilds and names the broken obligation); setup only
+    # has to leave the tools built.  `make -k` has compiled everything that still compiles (models, extraction).
     sys.stderr.write(log[-4000:])
-    sys.exit(1)
-vlib.build_ocaml('coredrv', 'core_model', 'coredrv.ml')
-vlib.build_ocaml('opdrv', 'op_model', 'opdrv.ml')
-vlib.build_ocaml('paddrv', 'pad_model', 'paddrv.ml')
-vlib.build_ocaml('codecdrv', 'codec_model', 'codecdrv.ml')
+    print('setup: WARNING: not every Coq file compiles on this tree; the checks will report the broken obligations')
+for (drv, mdl) in (('coredrv', 'core_model'), ('opdrv', 'op_model'), ('paddrv', 'pad_model'), ('codecdrv', 'codec_model')):
+    try:
+        vlib.build_ocaml(drv, mdl, drv + '.ml')
+    except Exception as e:                      # the check that needs the driver rebuilds it and reports
+        print('setup: WARNING: %s not built: %s' % (drv, e))
 # the other configurations (sanitizer build, SQLite store, Botan) are built here once; the checks rebuild them
 # incrementally from /repo's working tree on every run
 for v in ('asan', 'ossl-db', 'botan-file', 'botan-db'):
